@@ -1,6 +1,7 @@
 import TsVerif.C04.Lemmas
 import TsVerif.C04.LemmasIter
 import TsVerif.C04.Judge
+import TsVerif.C04.Geometry
 /-!
 # C04 — Changed ranges cover every position whose ancestor chain changed
 
@@ -124,6 +125,25 @@ backwards, are admissible, and give the single range [2,11).  (Real histories al
 hence the conclusion is `start ≤ end`, not `start < end`.) -/
 example : let tr : List (Length × Length) := [(⟨2,⟨0,2⟩⟩, ⟨11,⟨0,11⟩⟩), (⟨11,⟨0,11⟩⟩, ⟨6,⟨0,6⟩⟩), (⟨6,⟨0,6⟩⟩, ⟨11,⟨0,11⟩⟩)]
     traceAdmissible [] tr = true ∧ (foldAdd [] tr).reverse = [⟨⟨0,2⟩,⟨0,11⟩,2,11⟩] := by decide
+
+/-- `walk_stackOK` — the cursor-stack invariant of the lock-step walk, for ALL tree pairs, alias tables and
+difference lists: in the state in which the loop of `ts_subtree_get_changed_ranges` ends (and, by the same
+induction, in every state it passes through) each entry of both cursor stacks is the child of the entry below
+it at the recorded child index, and its position is its parent's position plus the total sizes of the
+earlier siblings.  `descend`, `advance` and `ascend` each preserve it (`descend_ok`, `advance_ok`, `ascend_ok`). -/
+theorem walk_stackOK (al : AliasTable) (fixed : Bool) (old new : Tree) (diffs : List TSRange) (tf fuel : Nat)
+    (position nextPosition : Length) :
+    let s := mainLoop al fixed diffs tf fuel
+      { o := iterNew old, n := iterNew new, position := position, nextPosition := nextPosition, diffIdx := 0, spans := [] }
+    StackOK s.o.stack ∧ StackOK s.n.stack :=
+  mainLoop_ok al fixed diffs tf fuel _ (by simp [iterNew, StackOK]) (by simp [iterNew, StackOK])
+
+/-- `descend_end`: a successful `iterator_descend(goal)` keeps the stack invariant and leaves the iterator on
+a node (or in the padding of a node) whose end lies strictly beyond the goal. -/
+theorem descend_end (al : AliasTable) (fuel : Nat) (it : Iter) (goal : Nat) (h : StackOK it.stack)
+    (hd : (it.descend al fuel goal).2 = true) :
+    StackOK (it.descend al fuel goal).1.stack ∧ (it.descend al fuel goal).1.endPosition.bytes > goal :=
+  ⟨(descend_ok al fuel it goal h).1, (descend_ok al fuel it goal h).2 hd⟩
 
 /-- `spans_contiguous`: for ALL tree pairs, alias tables and difference lists the spans of the walk are
 contiguous from `loopStart` on — each iteration starts where the previous one ended. -/
